@@ -81,6 +81,12 @@ def _select(func: ast.AST, sel: tuple) -> ast.AST:
             if count == sel[1]:
                 return st.test
             count += 1
+        elif kind == "if_mentions" and isinstance(st, ast.If):
+            # the n-th `if` whose test mentions the given text (robust against new statements in front of it)
+            if sel[1] in ast.unparse(st.test):
+                if count == sel[2]:
+                    return st.test
+                count += 1
         elif kind == "while" and isinstance(st, ast.While):
             if count == sel[1]:
                 return st.test
